@@ -11,6 +11,7 @@ import (
 	"sort"
 	"syscall"
 	"testing"
+	"testing/cryptotest"
 	"testing/synctest"
 	"time"
 
@@ -81,10 +82,16 @@ var (
 	flagWorker  = flag.Int("wsim.worker", 0, "worker number")
 	flagMaxFail = flag.Int("wsim.maxfail", 3, "stop after this many failing runs")
 	flagSimOnly = flag.String("wsim.sim", "", "restrict to one simulation kind")
+	flagChild   = flag.String("wsim.childhold", "", "child mode of the cross-process probe: hold a handle on this file")
+	flagProbe   = flag.Bool("wsim.procprobe", false, "run the cross-process lock probe of C13")
 	flagRace    = flag.Bool("wsim.race", false, "free-running workloads for the race detector (no scheduler, no hooks)")
 )
 
 var nSites int
+
+// genIndex is the index of the run being generated (enumerating generators use
+// it instead of the PRNG).
+var genIndex int
 
 func loadSites() {
 	if *flagSites == "" {
@@ -151,6 +158,8 @@ func runOne(t *testing.T, prop, tier string, seed uint64, sim Sim, c interface{}
 		}()
 		synctest.Test(t, func(t *testing.T) {
 			e.T = t
+			// crypto/rand (the seed of generate's random points) is a seeded stream
+			cryptotest.SetGlobalRandom(t, seed)
 			wt.VerifYield = func(site int) {
 				if site < len(cover) {
 					cover[site]++
@@ -226,6 +235,18 @@ func finalizeStats(st *Stats, t0 time.Time, sitesHit bool) {
 
 // TestWsim is the entry point of a worker process.
 func TestWsim(t *testing.T) {
+	if *flagChild != "" {
+		childHoldMain(*flagChild)
+		return
+	}
+	if *flagProbe {
+		if msg := procProbe(t); msg != "" {
+			fmt.Printf("PROCPROBE-VIOLATION %s\n", msg)
+		} else {
+			fmt.Println("PROCPROBE-OK")
+		}
+		return
+	}
 	loadSites()
 	// address-space cap: an allocation out of proportion kills this worker
 	// with "fatal error: out of memory" instead of taking the machine down
@@ -268,6 +289,7 @@ func TestWsim(t *testing.T) {
 		seed := RunSeed(*flagSeed, prop, idx)
 		r := newRng(seed)
 		sim := chooseSim(prop, r)
+		genIndex = idx
 		c := sim.Gen(prop, *flagTier, r)
 		if *flagOut != "" {
 			// journal: the case about to run, so that a worker killed by the
@@ -277,7 +299,19 @@ func TestWsim(t *testing.T) {
 		}
 		e := runOne(t, prop, *flagTier, seed, sim, c, st, nil, *flagLog)
 		if logf != nil {
-			fmt.Fprintf(logf, "run %d seed %d sim %s viol %v\n", idx, seed, sim.Name(), e.Viol)
+			// the event log of the determinism self-test: outcome, schedule and
+			// the cumulative counters after every run (never a clock, never a draw)
+			sched := ""
+			if e.OutSched != nil {
+				sb, _ := json.Marshal(e.OutSched)
+				sched = fmt.Sprintf("%x", hashBytes(sb))
+			}
+			pb, _ := json.Marshal(map[string]interface{}{"probes": st.Probes, "faults": st.Faults, "skipped": st.Skipped, "ops": st.Ops, "yields": st.Yields, "decisions": st.Decisions, "states": len(st.States), "inter": len(st.Interleave)})
+			viol := ""
+			if e.Viol != nil {
+				viol = e.Viol.Oracle + ": " + e.Viol.Message
+			}
+			fmt.Fprintf(logf, "run %d seed %d sim %s sched %s viol %q\n  %s\n", idx, seed, sim.Name(), sched, viol, pb)
 			for _, l := range e.Log {
 				fmt.Fprintln(logf, l)
 			}
